@@ -220,7 +220,7 @@ pub struct Engine {
     draining_seen: bool,
 }
 
-pub const TIMEOUT: Duration = Duration::from_secs(20);
+pub const TIMEOUT: Duration = Duration::from_secs(8);
 
 pub struct Snapshot {
     pub text: String,
